@@ -248,15 +248,59 @@ fn parse_index(docs: &[Doc], of: &str) -> Option<IndexData> {
     })
 }
 
-fn samgz_index(doc: &Doc) -> Option<IndexData> {
+/// Builds the index of a BGZF document with the synchronous indexer of its format.
+fn build_index(doc: &Doc) -> Option<IndexData> {
     use std::io::Write;
     let mut t = tempfile::NamedTempFile::new().ok()?;
     t.write_all(&doc.bytes).ok()?;
     t.flush().ok()?;
-    match sam::fs::index(t.path()) {
-        Ok(i) => Some(IndexData::Binned(i)),
-        Err(e) => vmc::machinery(format!("c16: sam::fs::index {}: {e}", doc.name)),
+    let fail = |e: io::Error| -> ! { vmc::machinery(format!("c16: sync indexer on {}: {e}", doc.name)) };
+    Some(match doc.format {
+        Format::Bam => IndexData::Linear(bam::fs::index(t.path()).unwrap_or_else(|e| fail(e))),
+        Format::Bcf => IndexData::Binned(bcf::fs::index(t.path()).unwrap_or_else(|e| fail(e))),
+        Format::SamGz => IndexData::Binned(sam::fs::index(t.path()).unwrap_or_else(|e| fail(e))),
+        Format::VcfGz => IndexData::Linear(vcf::fs::index(t.path()).unwrap_or_else(|e| fail(e))),
+        _ => return None,
+    })
+}
+
+/// The same payload in different BGZF blocks: a block boundary 2 bytes after the header and 2 bytes into
+/// every record (inside the BAM `block_size` / BCF `l_shared` prefix, inside a text line) when `every` is
+/// None, else a boundary every `every` payload bytes.
+pub fn reblocked(doc: &Doc, every: Option<usize>) -> Option<Doc> {
+    use std::io::Write;
+    if !matches!(doc.format, Format::Bam | Format::Bcf | Format::SamGz | Format::VcfGz) {
+        return None;
     }
+    let inner = doc.inner.as_ref()?;
+    let payload = &inner.bytes[..];
+    let mut cuts: Vec<usize> = match every {
+        None => std::iter::once(inner.header_end + 2).chain(inner.record_ends.iter().map(|e| e + 2)).collect(),
+        Some(k) => (1..).map(|i| i * k).take_while(|&c| c < payload.len()).collect(),
+    };
+    cuts.retain(|&c| c > 0 && c < payload.len());
+    cuts.sort_unstable();
+    cuts.dedup();
+    if cuts.is_empty() {
+        return None;
+    }
+    let mut w = bgzf::io::Writer::new(Vec::new());
+    let mut prev = 0;
+    let r: io::Result<Vec<u8>> = (|| {
+        for &c in &cuts {
+            w.write_all(&payload[prev..c])?;
+            w.flush()?;
+            prev = c;
+        }
+        w.write_all(&payload[prev..])?;
+        w.finish()
+    })();
+    let bytes = r.unwrap_or_else(|e| vmc::machinery(format!("c16: reblocking {}: {e}", doc.name)));
+    let tag = match every {
+        None => "reblocked-in-prefix".to_string(),
+        Some(k) => format!("reblocked-every-{k}"),
+    };
+    Some(vnd::corpus::make_doc(doc.format, format!("{}-{tag}", doc.name), &doc.set, bytes, false))
 }
 
 /// Builds the reader case of a corpus document (None: the format has no async reader).
@@ -265,7 +309,7 @@ pub fn make_rcase(docs: &[Doc], doc: &Doc) -> Option<RCase> {
     let regions = |label: &'static str, v: &[&str]| Script::Query(label, v.iter().map(|s| s.to_string()).collect());
     let (index, scripts): (Option<IndexData>, Vec<Script>) = match f {
         Format::Bam | Format::SamGz => {
-            let idx = parse_index(docs, &doc.name).or_else(|| if f == Format::SamGz { samgz_index(doc) } else { None });
+            let idx = parse_index(docs, &doc.name).or_else(|| build_index(doc));
             let mut s = vec![Script::Seq(0), Script::Seq(1), Script::Seq(2), Script::Seq(3)];
             if idx.is_some() {
                 s.push(regions("three-regions", &["sq0", "sq1:200-300", "sq0:1-20"]));
@@ -281,7 +325,7 @@ pub fn make_rcase(docs: &[Doc], doc: &Doc) -> Option<RCase> {
             (idx, s)
         }
         Format::Bcf => {
-            let idx = parse_index(docs, &doc.name);
+            let idx = parse_index(docs, &doc.name).or_else(|| build_index(doc));
             let mut s = vec![Script::Seq(0), Script::Seq(2)];
             if idx.is_some() {
                 s.push(regions("three-regions", &["sq0", "sq1:200-300", "sq0:1-20"]));
@@ -293,7 +337,7 @@ pub fn make_rcase(docs: &[Doc], doc: &Doc) -> Option<RCase> {
             (idx, s)
         }
         Format::VcfGz => {
-            let idx = parse_index(docs, &doc.name);
+            let idx = parse_index(docs, &doc.name).or_else(|| build_index(doc));
             let mut s = vec![Script::Seq(0), Script::Seq(1), Script::Seq(2), Script::Seq(3)];
             if idx.is_some() {
                 s.push(regions("three-regions", &["sq0", "sq1:200-300", "sq0:1-20"]));
